@@ -108,7 +108,7 @@ class C07(Prop):
         if shard != 2 % nshards:
             return
         from ..scale import build
-        case = build(self, ctx, 320 if tier == "quick" else 700)
+        case = build(self, ctx, 720 if tier == "quick" else 1100)      # well beyond 4096 trie nodes
         try:
             self.after_op(case, ("links", []), None, None)
             ctx.extra["scale_probe_pages"] += len(case.led.pages)
